@@ -88,6 +88,9 @@ type World struct {
 	lastSaveTip *model.Node
 	reloads     int
 
+	markBeyondPrune bool
+	trimParents     map[*model.Node]bool
+
 	twin     *headers.Repository
 	twinLeft int
 
@@ -115,7 +118,7 @@ func (w *World) genBits() int {
 // testing); in script mode it is the first element of the script.
 func Start(c *core.Ctx, o Opts) *World {
 	w := &World{c: c, o: o, ctx: logger.ContextWithNoLogger(context.Background()), marked: map[model.Hash]bool{},
-		bySerial: map[int]*model.Node{}}
+		bySerial: map[int]*model.Node{}, trimParents: map[*model.Node]bool{}}
 	var cfg Op
 	if c.Script != nil {
 		if len(c.Script) == 0 || json.Unmarshal(c.Script[0], &cfg) != nil || cfg.K != "config" {
@@ -277,14 +280,17 @@ func (w *World) expected(n *model.Node) (allowed []string) {
 	default:
 		v = "ok"
 	}
+	out := []string{v}
+	if w.trimParents[p] && (v == "ok" || v == "beyond-depth") {
+		out = []string{"ok", "beyond-depth"}
+	}
 	if relax {
-		out := []string{v, "unknown-parent"}
+		out = append(out, "unknown-parent")
 		if p == w.m.Genesis {
 			out = append(out, "wrong-chain")
 		}
-		return out
 	}
-	return []string{v}
+	return out
 }
 
 func contains(l []string, s string) bool {
@@ -430,6 +436,9 @@ func (w *World) Submit(n *model.Node, peer int, note string) string {
 	}
 	if v != "ok" {
 		w.c.Probe("refusal:" + classOnly(v))
+		if w.on("c08") {
+			w.c.Nontrivial()
+		}
 	}
 	if w.on("c08") {
 		if !contains(allowed, v) {
@@ -940,7 +949,11 @@ func (w *World) checkMarked() {
 			continue
 		}
 		if w.onBest(n) {
-			w.c.Fail("c17.excluded-from-best", "marked-on-best-chain", "n%d (height %d) is marked invalid or built on a marked header but is part of the reported best chain (tip n%d)", n.Serial, n.Height, w.tip.Serial)
+			cls := "marked-on-best-chain"
+			if w.markBeyondPrune {
+				cls += ":beyond-prune-depth"
+			}
+			w.c.Fail("c17.excluded-from-best", cls, "n%d (height %d) is marked invalid or built on a marked header but is part of the reported best chain (tip n%d)", n.Serial, n.Height, w.tip.Serial)
 			return
 		}
 		if _, cl, err := w.repo.CheckHeader(w.ctx, n.Hash); err == nil && cl {
